@@ -112,8 +112,11 @@ const lookupChanCap = 4096
 // callLookup runs the lookup synchronously with a buffered channel large enough
 // for every universe used here (the in-memory driver sends from the calling
 // goroutine), then drains it.
-func callLookup(g storage.Graph, c LookupCall, lo *storage.LookupOptions) (res lookupResult) {
-	bg := context.Background()
+func callLookup(g storage.Graph, c LookupCall, lo *storage.LookupOptions) lookupResult {
+	return callLookupWith(context.Background(), g, c, lo)
+}
+
+func callLookupWith(bg context.Context, g storage.Graph, c LookupCall, lo *storage.LookupOptions) (res lookupResult) {
 	var s *node.Node
 	var p *predicate.Predicate
 	var o *triple.Object
